@@ -48,73 +48,45 @@ Qed.
 
 Lemma run_roots_law c : no_limits c = true -> no_xpanic c -> c_paths c = [] ->
   forall roots st inv sts, forallb fault_free roots = true -> s_stack st = [] ->
-  exists sts' st',
-    run_roots c roots st inv sts = ROk (inv ++ cumul (s_inv st) (map (root_pkgs c) roots)) (sts ++ sts') st' /\
-    map fst sts' = flat_map (fun _ => c_exts c) roots.
+  exists inv' sts' st',
+    run_roots c roots st inv sts = ROk inv' sts' st' /\ s_stack st' = [] /\
+    s_inv st' = s_inv st ++ concat (map (root_pkgs c) roots) /\
+    match roots with [] => inv' = inv /\ sts' = sts | _ => inv' = s_inv st' /\ sts' = statuses c st' end.
 Proof.
   intros NL NP P. induction roots as [|t roots IH]; intros st inv sts FF S.
-  - exists [], st. cbn [run_roots map cumul flat_map]. rewrite !app_nil_r. split; reflexivity.
+  - exists inv, sts, st. cbn [run_roots map concat]. rewrite app_nil_r. repeat split; assumption.
   - cbn [forallb] in FF. apply andb_true_iff in FF as [F1 F2].
     destruct (run_fs_from c t st F1 NL NP P S) as (st1 & R & S1 & I).
     cbn [run_roots]. rewrite R.
-    destruct (IH st1 (inv ++ s_inv st1) (sts ++ statuses c st1) F2 S1) as (sts' & st' & E & N).
-    exists (statuses c st1 ++ sts'), st'. split.
-    + rewrite E. cbn [map cumul]. rewrite I, <- !app_assoc. reflexivity.
-    + rewrite map_app, N. cbn [flat_map]. f_equal. unfold statuses. rewrite map_map. cbn [fst]. apply map_id.
+    destruct (IH st1 (s_inv st1) (statuses c st1) F2 S1) as (inv' & sts' & st' & E & S' & I' & M).
+    exists inv', sts', st'. split; [exact E|]. split; [exact S'|]. split.
+    + rewrite I', I. cbn [map concat]. rewrite <- app_assoc. reflexivity.
+    + destruct roots as [|t2 roots]; [|exact M]. destruct M as [-> ->].
+      cbn [run_roots] in E. inversion E; subst. split; reflexivity.
 Qed.
 
-Lemma cumul_nils {A} (l : list (list A)) : Forall (fun x => x = []) l -> cumul [] l = [].
-Proof. induction 1 as [|x l Hx _ IH]; [reflexivity|]. subst. cbn [cumul app]. exact IH. Qed.
-
-(* what filesystem.Run reports for several fault-free roots: root i's packages n-i+1 times, n statuses per plugin *)
-Theorem multiroot_law c roots :
+(* filesystem.Run over any number of fault-free roots: exactly the union of the single-root runs, no package twice,
+   one status per plugin *)
+Theorem multiroot_union_lemma c roots :
   forallb fault_free roots = true -> no_limits c = true -> no_xpanic c -> c_paths c = [] ->
-  exists sts st, run c roots = ROk (cumul [] (map (single_inv c) roots)) sts st /\
-                 (c_exts c <> [] -> map fst sts = flat_map (fun _ => c_exts c) roots).
+  exists sts st, run c roots = ROk (concat (map (single_inv c) roots)) sts st /\
+                 (c_exts c <> [] -> roots <> [] -> map fst sts = c_exts c).
 Proof.
   intros FF NL NP P. unfold run. destruct (c_exts c) as [|e0 es] eqn:EX.
-  - exists [], init_state. split; [|intros H; contradiction]. f_equal. symmetry. apply cumul_nils.
-    apply Forall_forall. intros x Hx. apply in_map_iff in Hx as (t & <- & _).
-    unfold single_inv. rewrite run_single, EX. reflexivity.
-  - destruct (run_roots_law c NL NP P roots init_state [] [] FF eq_refl) as (sts' & st' & E & N).
-    exists sts', st'. rewrite E. cbn [app s_inv init_state]. split.
-    + f_equal. f_equal. apply map_ext_in. intros t Ht. symmetry. apply single_inv_ff; try assumption.
-      * rewrite forallb_forall in FF. apply FF. exact Ht.
-      * rewrite EX. discriminate.
-    + intros _. rewrite <- EX. exact N.
+  - exists [], init_state. split; [|intros H; contradiction]. f_equal. symmetry.
+    induction roots as [|t roots IH]; [reflexivity|]. cbn [map concat forallb] in *. apply andb_true_iff in FF as [_ F2].
+    rewrite (IH F2). unfold single_inv. rewrite run_single, EX. reflexivity.
+  - destruct (run_roots_law c NL NP P roots init_state [] [] FF eq_refl) as (inv' & sts' & st' & E & _ & I & M).
+    exists sts', st'. rewrite E. cbn [app s_inv init_state] in I.
+    assert (EQ : concat (map (root_pkgs c) roots) = concat (map (single_inv c) roots)).
+    { f_equal. apply map_ext_in. intros t Ht. symmetry. apply single_inv_ff; try assumption.
+      - rewrite forallb_forall in FF. apply FF. exact Ht.
+      - rewrite EX. discriminate. }
+    destruct roots as [|t roots].
+    + destruct M as [-> ->]. split; [reflexivity|]. intros _ H. contradiction.
+    + destruct M as [-> ->]. split; [rewrite I, EQ; reflexivity|]. intros _ _.
+      unfold statuses. rewrite map_map. cbn [fst]. rewrite map_id. exact EX.
 Qed.
 
-Lemma cumul_on_D {A} (l : list (list A)) : forallb is_nil (removelast l) = true -> cumul [] l = concat l.
-Proof.
-  induction l as [|x l IH]; intros D; [reflexivity|]. destruct l as [|y l].
-  - cbn. reflexivity.
-  - change (removelast (x :: y :: l)) with (x :: removelast (y :: l)) in D. cbn [forallb] in D.
-    apply andb_true_iff in D as [Dx D]. destruct x; [|discriminate].
-    change (cumul [] ([] :: y :: l)) with (([] ++ []) ++ cumul ([] ++ []) (y :: l)). cbn [app concat].
-    apply IH. exact D.
-Qed.
-
-Theorem multiroot_union_on_D c roots :
-  forallb fault_free roots = true -> no_limits c = true -> no_xpanic c -> c_paths c = [] ->
-  dom_multiroot c roots = true ->
-  run_inv (run c roots) = concat (map (single_inv c) roots).
-Proof.
-  intros FF NL NP P D. destruct (multiroot_law c roots FF NL NP P) as (sts & st & E & _).
-  rewrite E. cbn [run_inv]. apply cumul_on_D. exact D.
-Qed.
-
-(* ------------------------------------------------------------------ the refutation *)
 Definition t_one_file : node := Dc DOT [Fc nA Reg 1 0].
 Definition t_empty : node := Dc DOT [].
-
-Lemma multiroot_refuted_lemma :
-  exists c roots, forallb fault_free roots = true /\ forallb wf_tree roots = true /\ no_limits c = true /\
-    c_paths c = [] /\ NoDup (c_exts c) /\
-    ~ Permutation (run_inv (run c roots)) (concat (map (single_inv c) roots)) /\
-    ~ NoDup (map fst (run_statuses (run c roots))).
-Proof.
-  exists base_cfg, [t_one_file; t_empty]. repeat split; try reflexivity.
-  - constructor; [intros []|constructor].
-  - intros H. apply Permutation_length in H. vm_compute in H. discriminate.
-  - vm_compute. intros H. inversion H as [|? ? Hn _]; subst. apply Hn. left. reflexivity.
-Qed.
